@@ -1130,6 +1130,9 @@ impl Interner {
             }
         }
 
+        #[cfg(feature = "verif")]
+        crate::verif::thread_point("intern_between_probe_and_insert");
+
         // Not found, so insert a new one
         {
             let mut write_shard = typed_shard.write_shard(shard_index);
@@ -1242,6 +1245,9 @@ impl Interner {
                 return Interned(arc);
             }
         }
+
+        #[cfg(feature = "verif")]
+        crate::verif::thread_point("intern_between_probe_and_insert");
 
         // Not found, so insert a new one
         {
